@@ -1,0 +1,69 @@
+//go:build verif
+// +build verif
+
+package rfmt
+
+import (
+	"reflect"
+	"sync/atomic"
+)
+
+// VerifUnregisterSafeType removes a type from the safe-type registry.
+func VerifUnregisterSafeType(t reflect.Type) {
+	delete(safeTypeRegistry, t)
+}
+
+// VerifResetSafeTypeRegistry empties the safe-type registry.
+func VerifResetSafeTypeRegistry() {
+	for t := range safeTypeRegistry {
+		delete(safeTypeRegistry, t)
+	}
+}
+
+var verifPoolAllocs int64
+
+func init() {
+	origNew := ppFree.New
+	ppFree.New = func() interface{} {
+		atomic.AddInt64(&verifPoolAllocs, 1)
+		return origNew()
+	}
+}
+
+// VerifPoolAllocs reports how many printers the pool had to allocate.
+func VerifPoolAllocs() int64 { return atomic.LoadInt64(&verifPoolAllocs) }
+
+// VerifPooledState describes a printer as it sits in the pool.
+type VerifPooledState struct {
+	BufLen, ValidUntil    int
+	MarkerOpen            bool
+	Mode                  int
+	Override              int
+	Panicking, Erroring   bool
+	WrapErrs              bool
+	WrappedErrNil, ArgNil bool
+	ValueValid            bool
+	Fresh                 bool // the pool was empty: a new printer was allocated
+}
+
+// VerifPeekPooled takes a printer from the pool without re-initialising
+// it, records its state and puts it back.
+func VerifPeekPooled() VerifPooledState {
+	before := VerifPoolAllocs()
+	p := ppFree.Get().(*pp)
+	vu, mo, l, _ := p.buf.VerifState()
+	st := VerifPooledState{
+		BufLen: l, ValidUntil: vu, MarkerOpen: mo,
+		Mode:          int(p.buf.GetMode()),
+		Override:      int(p.override),
+		Panicking:     p.panicking,
+		Erroring:      p.erroring,
+		WrapErrs:      p.wrapErrs,
+		WrappedErrNil: p.wrappedErr == nil,
+		ArgNil:        p.arg == nil,
+		ValueValid:    p.value.IsValid(),
+		Fresh:         VerifPoolAllocs() != before,
+	}
+	ppFree.Put(p)
+	return st
+}
